@@ -319,3 +319,90 @@ func (w *world) redownloadScenario() error {
 	}
 	return nil
 }
+
+// recoveryMoveScenario: an APPEND the connector refuses lands in the recovery mailbox; the client MOVEs it out into a
+// normal mailbox (the connector accepts it now); the session ends; close + reopen, kill + restart. What the client sees
+// must be the moved message with its exact bytes, and after each restart nothing marked for deletion and no cache file
+// without a row may remain (the old copy is purged, the new one is not marked).
+func (w *world) recoveryMoveScenario() error {
+	res := w.ctx.Res
+	pfx := "RM_"
+	canon := "APPEND refused by the connector (message kept in the recovery mailbox); MOVE it out into A; LOGOUT; close; reopen"
+	w.ctx.Current(canon, nil)
+	d, err := prepAB(w, pfx, 1, false)
+	if err != nil {
+		closeAll(d)
+		return err
+	}
+	if _, err := w.p.call(req{Op: "failnext", Name: "CreateMessage"}); err != nil {
+		closeAll(d)
+		return err
+	}
+	if r, err := d.c.Append(pfx+"A", "", literalOf(pfx+"rec")); err != nil || r.Status != "NO" {
+		closeAll(d)
+		return fmt.Errorf("APPEND expected NO: %v %s %s", err, r.Status, r.Text)
+	}
+	if err := cmds(d.c, "SELECT "+imapcQuote(recoveryName)); err != nil {
+		closeAll(d)
+		return err
+	}
+	// find the message of this scenario among the recovered ones
+	r, err := okCmd(d.c, "UID FETCH 1:* (UID BODY.PEEK[HEADER.FIELDS (X-Marker)])")
+	if err != nil {
+		closeAll(d)
+		return err
+	}
+	uid := 0
+	for _, e := range imapcEvs(r) {
+		if e.Kind == "FETCH" && len(e.Lits) > 0 && strings.Contains(string(e.Lits[len(e.Lits)-1]), pfx+"rec") {
+			uid = e.UID
+		}
+	}
+	if uid == 0 {
+		closeAll(d)
+		return fmt.Errorf("recovered message not found")
+	}
+	if err := cmds(d.c, fmt.Sprintf("UID MOVE %d %s", uid, imapcQuote(pfx+"A"))); err != nil {
+		closeAll(d)
+		return err
+	}
+	d.c.Cmd("LOGOUT")
+	closeAll(d)
+	w.settle(true)
+	want := fmt.Sprintf("%sA{v# n3 strue: 1=%sm1[] 2=%srec[]} %sB{v# n1 strue:}", pfx, pfx, pfx, pfx)
+	check := func(when string, restarted bool) error {
+		v, bad, err := viewOf(w.p, pfx)
+		if err != nil {
+			return err
+		}
+		res.Evaluations++
+		if maskUIDV(v) != want {
+			res.Fail("moved-recovered-message-wrong | "+canon+" | "+when, fmt.Sprintf("view: %s | expected: %s", maskUIDV(v), want), nil)
+		}
+		if len(bad) > 0 {
+			res.Fail("listed-message-not-fetchable | "+canon+" | "+when, strings.Join(bad, "; "), nil)
+		}
+		if restarted {
+			if lo, e := w.leftovers(); e == nil && lo != "" {
+				res.Fail("leftovers-after-restart | "+canon+" | "+when, lo, nil)
+			}
+		}
+		return nil
+	}
+	res.Nontrivial(canon)
+	if err := check("before the restart", false); err != nil {
+		return err
+	}
+	w.cleanQuit("recovery move")
+	if err := w.restart(""); err != nil {
+		return err
+	}
+	if err := check("after close + reopen", true); err != nil {
+		return err
+	}
+	w.p.kill()
+	if err := w.restart(""); err != nil {
+		return err
+	}
+	return check("after kill + restart", true)
+}
